@@ -14,7 +14,7 @@ case (concurrent)  [kind, cfg, t0, (ds0,) ops, [seed, programs]]
 op   [0,k,ds] get  [1,k,vid,exp,ds] put(stub answer)  [2,k,vid,ttls,ds] put(real Answer built now)
      [3,k,ds] flush(k)  [4,ds] flush()  [5,m,ds] set_max_size  [6,k,ds] get_hits_for_key
      [7,ds] hits()  [8,ds] misses()  [9,ds] get_statistics_snapshot  [10,ds] reset_statistics
-     [11,d] clock += d
+     [11,d] clock += d  [12,k,vid,ttls,ds] put(real negative Answer: CNAME TTLs + [SOA TTL, SOA minimum])
 output  [state0, [ret, state] per op]   (an exception ends the list with its code)
 state   Cache: [[k,[vid,exp]]... in dict order, next_cleaning, hits, misses, now]
         LRU:   [[k,[vid,exp],node.hits] walking .next from the sentinel, [k..] walking .prev,
@@ -124,6 +124,25 @@ def real_answer(k, vid, ttls):
     return a
 
 
+def negative_answer(k, vid, ttls):
+    """an Answer for a NODATA / NXDOMAIN response: ttls = CNAME chain TTLs + [SOA TTL, SOA minimum]"""
+    qn = f"k{k}.example.".replace("-", "m")
+    nx = vid % 2 == 0 and len(ttls) == 2
+    lines = ["id 1", "opcode QUERY", "rcode NXDOMAIN" if nx else "rcode NOERROR", "flags QR RD RA",
+             ";QUESTION", f"{qn} IN A", ";ANSWER"]
+    owner = qn
+    for i, t in enumerate(ttls[:-2]):
+        target = f"c{i}.{qn}"
+        lines.append(f"{owner} {t} IN CNAME {target}")
+        owner = target
+    lines.append(";AUTHORITY")
+    lines.append(f"example. {ttls[-2]} IN SOA ns.example. host.example. 1 2 3 4 {ttls[-1]}")
+    msg = dns.message.from_text("\n".join(lines) + "\n")
+    a = dns.resolver.Answer(dns.name.from_text(qn), A, IN, msg)
+    a._vid = vid
+    return a
+
+
 def exc_code(e):
     if isinstance(e, KeyError):
         return Err(1, "KeyError")
@@ -179,6 +198,9 @@ def do_call(cache, op, idx):
         return None
     if code == 2:
         cache.put(key_of(op[1], v), real_answer(op[1], op[2], op[3]))
+        return None
+    if code == 12:
+        cache.put(key_of(op[1], v), negative_answer(op[1], op[2], op[3]))
         return None
     if code == 3:
         cache.flush(key_of(op[1], v))
@@ -462,7 +484,10 @@ def gen_ops(rng, n, lru, nkeys, now, horizon):
         elif r < 0.62:
             vid += 1
             ttls = [rng.choice([0, 1, 2, 5, 30, 300]) for _ in range(rng.choice([1, 1, 1, 2, 3]))]
-            ops.append([2, k, vid, ttls, gen_ds(rng)])
+            if rng.random() < 0.3:
+                ops.append([12, k, vid, ttls + [rng.choice([0, 3, 60])] if len(ttls) == 1 else ttls, gen_ds(rng)])
+            else:
+                ops.append([2, k, vid, ttls, gen_ds(rng)])
         elif r < 0.70:
             ops.append([3, k, gen_ds(rng)])
         elif r < 0.73:
@@ -821,7 +846,7 @@ def check_history(case, out):
                     fail("get dropped an unexpired entry", step)
             elif new:
                 fail("get added a key", step)
-        elif code in (1, 2):
+        elif code in (1, 2, 12):
             k = op[1]
             if code == 1:
                 val = [op[2], op[3]]
@@ -902,11 +927,11 @@ def check_history(case, out):
             hits = misses = 0
         if code in (6, 7, 8, 9, 10, 11) and (gone or new):
             fail("a statistics call or the passage of time changed the key set", step)
-        if not lru and code in (0, 1, 2, 6, 7, 8, 9, 10, 11):
+        if not lru and code in (0, 1, 2, 12, 6, 7, 8, 9, 10, 11):
             # the simple cache may drop entries while cleaning, but only expired ones
             for g in gone:
                 w = ideal.get(g)
-                if w is not None and w[1] > now and not (code in (1, 2) and g == op[1]):
+                if w is not None and w[1] > now and not (code in (1, 2, 12) and g == op[1]):
                     fail("cleaning dropped an unexpired entry", step, key=g)
         sh, sm = (st[4], st[5]) if lru else (st[2], st[3])
         if [sh, sm] != [hits, misses]:
